@@ -1,7 +1,7 @@
 (* C03 — Quota admission never lets usage pass the quota's limit.  Exported theorems only. *)
 From Coq Require Import List ZArith Bool.
 From Verif Require Import C02.Model C03.Model C03.Spec C03.Codec C03.Entry C03.Proofs C03.Proofs_Runtime
-     C03.Proofs_Inv C03.Proofs_Flight C03.Proofs_Step C03.Proofs_Check C03.Proofs_Sound C03.Proofs_Hist C03.Proofs_NP C03.Proofs_Codec C03.Examples.
+     C03.Proofs_Inv C03.Proofs_Flight C03.Proofs_Step C03.Proofs_Exact C03.Proofs_Check C03.Proofs_Sound C03.Proofs_Hist C03.Proofs_NP C03.Proofs_Codec C03.Examples.
 Import ListNotations.
 Open Scope Z_scope.
 
@@ -84,15 +84,28 @@ Theorem c03_flag_origin : forall cfg st o q',
 Proof. exact taint_origin. Qed.
 Print Assumptions c03_flag_origin.
 
+(* 4e. What "used" means: after any well-formed history the used (non-preemptible used) of every
+       quota is exactly the sum of the masked requests of the (non-preemptible) pods currently
+       assigned in its subtree: nothing is lost or double-counted by reserve, unreserve, deletion,
+       quota creation/update or the tree rebuild of a quota meta change. *)
+Theorem c03_used_exact : forall cfg ops,
+  wf_hist cfg init_state None ops = true ->
+  let st := exec cfg init_state ops in
+  forall q, In q (quotas st) -> forall d,
+    vget (q_used q) d = exp_used st q d /\ vget (q_npused q) d = exp_npused st q d.
+Proof. exact used_exact_hist. Qed.
+Print Assumptions c03_used_exact.
+
 (* 5. The invariant behind 3 and 4 is kept by every single operation in every state; [FL] is the
       part about an admission check whose Reserve is still to come: whatever informer events
       happen in between, charging the pod afterwards keeps every quota the check covered within
-      its max. *)
+      its max; [EXI] says the usage figures are the from-scratch sums. *)
 Theorem c03_step_invariant : forall cfg wf st sn o,
-  INV cfg wf st -> FL wf st sn ->
+  INV cfg wf st -> FL wf st sn -> EXI wf st ->
   INV cfg (wf && op_okb st sn o) (fst (step cfg st o))
-  /\ FL (wf && op_okb st sn o) (fst (step cfg st o)) (track cfg st sn o).
-Proof. exact INV_FL_step. Qed.
+  /\ FL (wf && op_okb st sn o) (fst (step cfg st o)) (track cfg st sn o)
+  /\ EXI (wf && op_okb st sn o) (fst (step cfg st o)).
+Proof. exact ALL_step. Qed.
 Print Assumptions c03_step_invariant.
 
 (* 6. The decision procedure that bin/check runs on the IMPLEMENTATION's observations accepts
@@ -167,11 +180,11 @@ Proof. exact ex_bound_pod_proof. Qed.
 (* ... and without parent checking a parent can pass its max through its children *)
 Example ex_parent_passes_max_without_check :
   let st := exec (mkConfig false false) init_state
-                 [OQuotaAdd 1 0 true cm (v3 4 4 0) cm (v3 0 0 0) (v3 0 0 0);
-                  OQuotaAdd 2 1 true cm (v3 4 4 0) cm (v3 0 0 0) (v3 0 0 0);
-                  OQuotaAdd 3 1 true cm (v3 4 4 0) cm (v3 0 0 0) (v3 0 0 0);
-                  OPodAdd 1 2 false (v3 3 1 0) cm; OPodAdd 2 3 false (v3 3 1 0) cm;
+                 [OQuotaAdd 2 0 true cm (v3 4 4 0) cm (v3 0 0 0) (v3 0 0 0);
+                  OQuotaAdd 3 2 true cm (v3 4 4 0) cm (v3 0 0 0) (v3 0 0 0);
+                  OQuotaAdd 5 2 true cm (v3 4 4 0) cm (v3 0 0 0) (v3 0 0 0);
+                  OPodAdd 1 3 false (v3 3 1 0) cm; OPodAdd 2 5 false (v3 3 1 0) cm;
                   OAttempt 1; OAttempt 2] in
   map (fun q => (q_id q, q_used q, q_taint q)) (quotas st)
-  = [(1, v3 6 2 0, true); (2, v3 3 1 0, false); (3, v3 3 1 0, false)].
+  = [(2, v3 6 2 0, true); (3, v3 3 1 0, false); (5, v3 3 1 0, false)].
 Proof. exact ex_parent_proof. Qed.
